@@ -90,8 +90,12 @@ def ref_match(san: list[list[str]], cn: str | None, cn_enabled: bool, host: str)
                     continue
                 verdicts.append(ACCEPT if eip.packed == hip.packed else REJECT)
         # other SAN types (URI, email) never identify a host
+    n_other = sum(1 for typ, _ in san if typ not in ("DNS", "IP Address"))
     if cn is not None and cn_enabled and hip is None and n_id_entries == 0:
-        verdicts.append(ref_dns_entry(cn, host))
+        v = ref_dns_entry(cn, host)
+        # a subjectAltName that holds only non-host names (URI, email): RFC 6125 6.4.4 forbids the commonName then (an
+        # URI-ID is present), OpenSSL's X509_check_host and CPython's matcher consult it (no DNS-ID present): either
+        verdicts.append(EITHER if (n_other and v == ACCEPT) else v)
     # commonName when SANs exist, when not enabled, or for IP hosts: contributes nothing (= reject)
     if ACCEPT in verdicts:
         return ACCEPT
@@ -342,6 +346,33 @@ def run_pins(ctx: Ctx, rec: Recorder) -> None:
                 rec.fail(case, "pin-must-" + want + "-violated", {"ref": want, "got": got, "kind": kind}, f"pin {kind}: reference {want}, got {got}")
             if idx % 4001 == 0:
                 rec.sample({"cert_len": len(cert), "pin_kind": kind, "pin": pin, "reference": want})
+    # pin histories: the verdict on (certificate, pin) must not depend on the pins checked before.  Malformed pins of the
+    # right length (a non-hex character: 'O' typed for '0', a dash, a space, a non-ASCII letter) are rejected - by whatever
+    # exception - and the true pins of every length, in every spelling, must still be accepted right afterwards.
+    if ctx.shard == 0:
+        for ci, cert in enumerate(certs):
+            digests = {32: hashlib.md5(cert).hexdigest(), 40: hashlib.sha1(cert).hexdigest(), 64: hashlib.sha256(cert).hexdigest()}
+            for n, d in digests.items():
+                for bad_ch in ("O", "g", "-", " ", "\u00e9", "\x00", "l"):
+                    for pos in (0, n // 2, n - 1):
+                        bad = d[:pos] + bad_ch + d[pos + 1 :]
+                        steps = [("malformed", bad, REJECT)] + [(k, v, ACCEPT) for dd in digests.values() for k, v in (("true", dd), ("upper", dd.upper()), ("colons-std", ":".join(dd[i : i + 2] for i in range(0, len(dd), 2))))]
+                        steps.append(("flip-after-malformed", d[:pos] + ("0" if d[pos] != "0" else "1") + d[pos + 1 :], REJECT))
+                        for kind, pin, want in steps:
+                            case = {"what": "pin", "cert": ci, "kind": kind, "pin": pin, "after_malformed": bad}
+                            rec.case(["pin-history", ci, bad, pin])
+                            rec.mon("pin_history")
+                            try:
+                                assert_fingerprint(cert, pin)
+                                got = ACCEPT
+                            except SSLError:
+                                got = REJECT
+                            except Exception as e:  # noqa: BLE001
+                                # a malformed pin may be refused with any exception; a well-formed one may not raise anything else
+                                got = REJECT if kind == "malformed" else "exception:" + type(e).__name__
+                                rec.count("malformed_pin_refused_with_" + type(e).__name__)
+                            if got != want:
+                                rec.fail(case, "pin-must-" + want + "-violated", {"ref": want, "got": got, "kind": kind, "history": "after a malformed pin of the same length"}, f"pin {kind} after malformed pin {bad!r}: reference {want}, got {got}")
     # no certificate at all must be rejected
     rec.mon("pin_verdict")
     try:
